@@ -1316,3 +1316,66 @@ func interfaceKeyedMapRule(c *Ctx) {
 		o.OK()
 	}
 }
+
+// =============================================================================================
+// batch 4 (seeded round 9)
+
+func init() {
+	addRule("C18", Rule{ID: "C18.R13", Min: 1, Statement: "the requeue decided for a missing optional source reaches the caller: once RequeueAfter is set on the result, the result is not replaced before it is returned", Run: optionalSourceRequeueKeptRule})
+}
+
+func optionalSourceRequeueKeptRule(c *Ctx) {
+	p := c.P
+	n := 0
+	for _, fn := range p.FuncsIn(pkgObjTemplate) {
+		if fn.Parent() != nil {
+			continue
+		}
+		for _, b := range fn.Blocks {
+			for _, in := range b.Instrs {
+				st, ok := in.(*ssa.Store)
+				if !ok {
+					continue
+				}
+				fa, ok := st.Addr.(*ssa.FieldAddr)
+				if !ok || fieldName(fa.X.Type(), fa.Field) != "RequeueAfter" {
+					continue
+				}
+				// the value: the optional-resource retry interval of the reconciler
+				ld, ok := stripConv(st.Val).(*ssa.UnOp)
+				if !ok || ld.Op != token.MUL {
+					continue
+				}
+				vfa, ok := ld.X.(*ssa.FieldAddr)
+				if !ok || fieldName(vfa.X.Type(), vfa.Field) != "optionalResourceRetryInterval" {
+					continue
+				}
+				res, ok := fa.X.(*ssa.Alloc)
+				if !ok {
+					continue
+				}
+				n++
+				o := c.Ob(fn, "optional-source-requeue-kept", st, c.rule.Statement)
+				bad := ""
+				for _, r := range reachableAfter(st, nil) {
+					ws, ok := r.(*ssa.Store)
+					if !ok || ws.Addr != ssa.Value(res) {
+						continue
+					}
+					if l, isLoad := stripConv(ws.Val).(*ssa.UnOp); isLoad && l.Op == token.MUL && l.X == ssa.Value(res) {
+						continue // `return res, …` with a named result
+					}
+					bad = p.IPos(ws)
+				}
+				if bad != "" {
+					o.Fail("after the retry interval for a missing optional source was put on the result, the result is replaced at %s: the ObjectTemplate is not requeued, and a source that appears later never re-renders the target (sources are only watched once they exist)", bad)
+				} else {
+					o.OK()
+				}
+			}
+		}
+	}
+	if n == 0 {
+		c.AnchorLost("store of optionalResourceRetryInterval into the reconcile result in " + pkgObjTemplate)
+	}
+}
